@@ -394,6 +394,11 @@ func replayStep(c *Ctx, prop string) {
 		rig.NilIO = true
 	}
 	sc := StepCase{Pre: pre, Bytes: bs, IOSeed: uint64(is)}
+	sc.PreHALT, _ = w["pre_halt"].(bool)
+	sc.NoHandlers, _ = w["no_handlers"].(bool)
+	if d, ok := w["direct"].(float64); ok {
+		rig.Direct = int(d)
+	}
 	o := rig.Run(&sc)
 	tb, _ := w["table"].(float64)
 	opb, _ := w["op"].(float64)
